@@ -200,7 +200,16 @@ fn language_job(ctx: &Ctx, job: usize, iters: u64) -> Stats {
                 terms.push(format!("({})", lits.join(rng.pick_str(&[" & ", " and ", "*"]))));
             }
         }
-        let body = if terms.is_empty() { "false".to_string() } else { terms.join(rng.pick_str(&[" | ", " or ", "+"])) };
+        let mut body = if terms.is_empty() { "false".to_string() } else { terms.join(rng.pick_str(&[" | ", " or ", "+"])) };
+        if rng.chance(1, 2) {
+            // bodies with every connective / construct (the quantifier body extends as far right as possible)
+            let mut cfg = crate::gen::GenCfg::simple(&names[..k], 3);
+            cfg.allow_fix = false;
+            cfg.binder_weight = 6;
+            let ast = crate::gen::gen_ast(&mut rng, &cfg);
+            body = crate::gen::render(&ast, &mut rng, crate::gen::Style::Plain);
+            st.bump("language_bodies_with_all_connectives");
+        }
         let len = rng.usize(4);
         let extra = ["zz", "p", "q", "r", "s", "yy"];
         let mut list: Vec<String> = (0..len).map(|_| rng.pick(&extra).to_string()).collect();
@@ -260,7 +269,7 @@ pub fn run(ctx: &Ctx) -> (Stats, Spec) {
     });
     st.merge(crate::report::merge_all(parts));
     let spec = Spec {
-        rule: "f ranges over all functions of 3 (4) variables embedded among outside labels, V over all lists up to length 3 incl. repeated, outside-support and empty lists; random f over 4-7 sparse labels with lists up to length 6; language forms `exists|any|forall|all <list>[,] # <DNF>`. distinct = (table, set(V), quantifier, family); non-trivial = V meets the support of a non-constant f.".into(),
+        rule: "f ranges over all functions of 3 (4) variables embedded among outside labels, V over all lists up to length 3 incl. repeated, outside-support and empty lists; random f over 4-7 sparse labels with lists up to length 6; language forms `exists|any|forall|all <list>[,] # <body>` with DNF bodies and with random bodies using every connective. distinct = (table, set(V), quantifier, family); non-trivial = V meets the support of a non-constant f.".into(),
         assumptions: vec!["value of a result is read by walking it; support is computed from the operand's truth table".into()],
         floors: vec![
             ("exists".into(), 10_000, "exists never exercised".into()),
